@@ -43,7 +43,7 @@ func init() {
 		Run: run,
 		Floors: func(t string) map[string]int64 {
 			return map[string]int64{"spelling.esri": 5000, "spelling.ogc": 1000, "section_order.unit_before_parameters": 1000, "unit.foot": 1000, "unit.us_foot": 1000, "towgs84.3": 1000, "towgs84.7": 1000, "towgs84.none": 1000,
-				"proj.merc": 300, "proj.lcc": 300, "proj.aea": 300, "proj.eqdc": 300, "proj.tmerc": 300, "proj.longlat": 300, "registry.names": 100, "registry.equal_pairs": 500, "registry.unequal_pairs": 300, "registry.prj_files": 50, "twin.negated": 2000, "names.short_empty_or_unusual": 1000, "wkt.authority_on_nested_objects": 1000, "unit.other_named_factor": 1000, "twin.nudged": 1000}
+				"proj.merc": 300, "proj.lcc": 300, "proj.aea": 300, "proj.eqdc": 300, "proj.tmerc": 300, "proj.longlat": 300, "registry.names": 100, "registry.equal_pairs": 500, "registry.unequal_pairs": 300, "registry.prj_files": 50, "twin.negated": 2000, "names.short_empty_or_unusual": 1000, "wkt.authority_on_nested_objects": 1000, "unit.other_named_factor": 1000, "layout.blank_after_commas": 1000, "twin.nudged": 1000}
 		},
 	})
 }
@@ -61,6 +61,7 @@ type sys struct {
 	ogc          bool
 	unitFirst    bool
 	pretty       bool
+	spaced          bool // a blank after every comma
 	otherUnit       bool // a linear unit other than metre / foot / US survey foot
 	nestedAuthority bool // GDAL style: AUTHORITY nodes on the nested objects (GEOGCS = EPSG:4326)
 	oddNames     bool // a WKT name other than the usual ESRI-style one (short, empty, bare prefix, blanks, non-ASCII)
@@ -215,7 +216,23 @@ func genSys(r *crsgen.R) *sys {
 			s.latMin, s.latMax = -85, -5
 		}
 	}
-	if r.Chance(0.25) && s.name != "longlat" {
+	if r.Chance(0.2) {
+		// a blank after every comma outside the quoted names (hand-formatted WKT)
+		var b strings.Builder
+		inq := false
+		for i := 0; i < len(s.wkt); i++ {
+			ch := s.wkt[i]
+			b.WriteByte(ch)
+			if ch == '"' {
+				inq = !inq
+			}
+			if ch == ',' && !inq {
+				b.WriteByte(' ')
+			}
+		}
+		s.wkt = b.String()
+		s.spaced = true
+	} else if r.Chance(0.25) && s.name != "longlat" {
 		// the multi-line layout GDAL and many .prj writers produce: every nested section on its
 		// own indented line (scalar values stay on the line of their keyword)
 		s.wkt = prettyWKT(s.wkt)
@@ -323,6 +340,9 @@ func runSpelling(c *core.Ctx) {
 	}
 	if s.otherUnit {
 		c.Count("unit.other_named_factor")
+	}
+	if s.spaced {
+		c.Count("layout.blank_after_commas")
 	}
 	switch s.towgs {
 	case 0:
